@@ -265,44 +265,115 @@ theorem parts_consecutive (lo hi df i : Nat) (w : Wide lo hi df) (hi' : i + 1 < 
   · rw [child_closed lo hi df (df - 1) w (by omega)]
     simp only [if_true]
 
-/-! ### the width hypothesis for the Go arithmetic, from "no narrow range over the threshold" -/
+/-! ### fix-width for the Go arithmetic: `canDivide`, and the depth budget always suffices -/
 
-/-- no range that must be divided is narrower than `df` (what `widthSafe` checks in the harness) -/
-def NoNarrow (p : Params) (sl : List Elem) : Nat → Nat → Nat → Prop
-  | 0, lo, hi => (slRange sl lo hi).length ≤ p.thr
-  | f + 1, lo, hi => (slRange sl lo hi).length ≤ p.thr ∨
-      (p.df ≤ hi - lo + 1 ∧
-        ∀ i, i < p.df → NoNarrow p sl f (childRange lo hi p.df i).1 (childRange lo hi p.df i).2)
+theorem canDivide_iff (lo hi df : Nat) (h1 : lo ≤ hi) (h2 : hi < M) (hdf : 2 ≤ df) (hM : df ≤ M) :
+    canDivide lo hi df = true ↔ df ≤ hi - lo + 1 := by
+  unfold canDivide
+  rw [span_eq lo hi h1 h2]
+  have : (df + M - 1) % M = df - 1 := by
+    have := end_mod df (by omega) hM
+    exact this
+  rw [this]
+  simp only [decide_eq_true_eq]
+  omega
 
-theorem widthOk_go (p : Params) (sl : List Elem) (hdf : 2 ≤ p.df) :
-    ∀ f lo hi, lo ≤ hi → hi < M → NoNarrow p sl f lo hi → WidthOk goSplit p sl f lo hi := by
+theorem goSplit_wide (lo hi df : Nat) : goSplit.wide lo hi df = canDivide lo hi df := rfl
+theorem goSplit_child (lo hi df i : Nat) : goSplit.child lo hi df i = childRange lo hi df i := rfl
+
+theorem kstep (d f : Nat) : d * (2 ^ (f + 1) + 1) + d = 2 * (d * (2 ^ f + 1)) := by
+  have h1 : 2 ^ (f + 1) + 1 + 1 = 2 * (2 ^ f + 1) := by rw [Nat.pow_succ]; omega
+  have h2 : d * (2 ^ (f + 1) + 1) + d = d * (2 ^ (f + 1) + 1 + 1) := by
+    rw [Nat.mul_add d (2 ^ (f + 1) + 1) 1, Nat.mul_one]
+  rw [h2, h1, Nat.mul_left_comm]
+
+/-- widths of the parts: every part is at most `w - (df-1)` and at most `(w + df - 1)/2` wide -/
+theorem child_width (lo hi df i : Nat) (w : Wide lo hi df) (hi' : i < df) :
+    (childRange lo hi df i).2 - (childRange lo hi df i).1 + 1 + (df - 1) ≤ hi - lo + 1 ∧
+    2 * ((childRange lo hi df i).2 - (childRange lo hi df i).1 + 1) ≤ hi - lo + 1 + (df - 1) := by
+  obtain ⟨hP, hal, hsum⟩ := split_facts lo hi df w
+  have h1 := w.le
+  have hdf := w.df2
+  have e1 : df * perRange lo hi df = (df - 1) * perRange lo hi df + perRange lo hi df := by
+    have := succ_mul' (df - 1) (perRange lo hi df)
+    rw [Nat.sub_add_cancel (by omega)] at this
+    exact this
+  have e2 : i * perRange lo hi df ≤ (df - 1) * perRange lo hi df :=
+    Nat.mul_le_mul_right _ (by omega)
+  have e5 : df - 1 ≤ (df - 1) * perRange lo hi df := Nat.le_mul_of_pos_right _ (by omega)
+  have e6 : 2 * perRange lo hi df ≤ df * perRange lo hi df := Nat.mul_le_mul_right _ hdf
+  rw [child_closed lo hi df i w hi']
+  simp only []
+  by_cases hlast : i = df - 1
+  · simp only [hlast, if_true]
+    rw [hlast] at e2
+    omega
+  · simp only [hlast, if_false]
+    omega
+
+/-- a well-formed range of width at most `(df-1)(2^f+1)` is `NarrowBy (f+1)` -/
+theorem narrowBy_go (df : Nat) (hdf : 2 ≤ df) (hM : df ≤ M) :
+    ∀ f lo hi, lo ≤ hi → hi < M → hi - lo + 1 ≤ (df - 1) * (2 ^ f + 1) →
+      NarrowBy goSplit df (f + 1) lo hi := by
   intro f
   induction f with
-  | zero => intro lo hi _ _ h; exact h
-  | succ f ih =>
-    intro lo hi h1 h2 h
-    simp only [NoNarrow] at h
-    simp only [WidthOk]
-    rcases h with h | ⟨hw, hk⟩
-    · left; exact h
+  | zero =>
+    intro lo hi h1 h2 hb
+    simp only [NarrowBy]
+    by_cases hw : canDivide lo hi df = true
     · right
-      have w : Wide lo hi p.df := ⟨h1, h2, hdf, hw⟩
-      refine ⟨goSplit_ok lo hi p.df w, ?_⟩
+      have w : Wide lo hi df := ⟨h1, h2, hdf, (canDivide_iff lo hi df h1 h2 hdf hM).mp hw⟩
+      refine ⟨goSplit_ok lo hi df w, ?_⟩
       intro i hi'
-      show WidthOk goSplit p sl f (childRange lo hi p.df i).1 (childRange lo hi p.df i).2
-      have hc := child_wf lo hi p.df i w hi'
-      exact ih _ _ hc.2.1 (by omega) (hk i hi')
+      rw [goSplit_child, goSplit_wide]
+      have hc := child_wf lo hi df i w hi'
+      have hcw := child_width lo hi df i w hi'
+      cases hcd : canDivide (childRange lo hi df i).1 (childRange lo hi df i).2 df with
+      | false => rfl
+      | true =>
+        have := (canDivide_iff _ _ df hc.2.1 (by omega) hdf hM).mp hcd
+        simp only [Nat.pow_zero] at hb
+        omega
+    · left
+      rw [goSplit_wide]
+      cases h : canDivide lo hi df with
+      | false => rfl
+      | true => exact absurd h hw
+  | succ f ih =>
+    intro lo hi h1 h2 hb
+    simp only [NarrowBy]
+    by_cases hw : canDivide lo hi df = true
+    · right
+      have w : Wide lo hi df := ⟨h1, h2, hdf, (canDivide_iff lo hi df h1 h2 hdf hM).mp hw⟩
+      refine ⟨goSplit_ok lo hi df w, ?_⟩
+      intro i hi'
+      have hc := child_wf lo hi df i w hi'
+      have hcw := child_width lo hi df i w hi'
+      have := ih (childRange lo hi df i).1 (childRange lo hi df i).2 hc.2.1 (by omega) (by
+        have hk := kstep (df - 1) f
+        omega)
+      simp only [NarrowBy] at this
+      exact this
+    · left
+      rw [goSplit_wide]
+      cases h : canDivide lo hi df with
+      | false => rfl
+      | true => exact absurd h hw
 
-theorem topOk_go (p : Params) (sl : List Elem) (hdf : 2 ≤ p.df) (hM : p.df ≤ M)
-    (h : ∀ i, i < p.df →
-      NoNarrow p sl depthFuel (childRange 0 (M - 1) p.df i).1 (childRange 0 (M - 1) p.df i).2) :
-    TopOk goSplit p sl := by
+/-- **the depth budget always suffices**: the Go splitter is good for every divide factor -/
+theorem splitterOk_go (df : Nat) (hdf : 2 ≤ df) (hM : df ≤ M) : SplitterOk goSplit df := by
   have hM0 : 0 < M := by simp [M]
-  have w : Wide 0 (M - 1) p.df := ⟨Nat.zero_le _, by omega, hdf, by omega⟩
-  refine ⟨goSplit_ok 0 (M - 1) p.df w, ?_⟩
+  have w : Wide 0 (M - 1) df := ⟨Nat.zero_le _, by omega, hdf, by omega⟩
+  refine ⟨goSplit_ok 0 (M - 1) df w, ?_⟩
   intro i hi'
-  show WidthOk goSplit p sl depthFuel (childRange 0 (M - 1) p.df i).1 (childRange 0 (M - 1) p.df i).2
-  have hc := child_wf 0 (M - 1) p.df i w hi'
-  exact widthOk_go p sl hdf depthFuel _ _ hc.2.1 (by omega) (h i hi')
+  show NarrowBy goSplit df depthFuel (childRange 0 (M - 1) df i).1 (childRange 0 (M - 1) df i).2
+  have hc := child_wf 0 (M - 1) df i w hi'
+  have hcw := child_width 0 (M - 1) df i w hi'
+  apply narrowBy_go df hdf hM 69 _ _ hc.2.1 (by omega)
+  have hbig : M ≤ (df - 1) * (2 ^ 69 + 1) := by
+    have h1 : M ≤ 2 ^ 69 + 1 := by decide
+    have h2 : 2 ^ 69 + 1 ≤ (df - 1) * (2 ^ 69 + 1) := Nat.le_mul_of_pos_left _ (by omega)
+    omega
+  omega
 
 end AnySync.Ldiff
